@@ -112,6 +112,9 @@ Required(s) == IF Has(s, "required") THEN Rng(s.required) ELSE {}
 EnvHas(env, n) == \E i \in DOMAIN env : env[i].k = n
 EnvGet(env, n) == env[CHOOSE i \in DOMAIN env : env[i].k = n].s
 
+\* a branch of allOf/anyOf with a same-file reference replaced by its target
+ResolveB(env, b) == IF Has(b, "ref") /\ EnvHas(env, b.ref.n) THEN EnvGet(env, b.ref.n) ELSE b
+
 (* ---------- numbers ---------- *)
 \* All comparisons on quarter units (U = 4: h stands for h/4; exact in float64 and in decimal text).  "big" landmark numerals are ordered by value: sg*2^e + o with
 \* |o| far smaller than the gap between consecutive landmarks, so the order is lexicographic.
@@ -167,8 +170,9 @@ LenOK(l, n, D) ==
 \* What encoding/json's typed decode alone accepts for a value of an anonymous Go type built from
 \* schema s (no generated unmarshaler runs: no required / bounds / length checks) -- used by deviation
 \* "DeclaredArrayElemUnvalidated": object items of a DECLARED array type become an anonymous struct.
-RECURSIVE TypedOnly(_, _, _)
-TypedOnly(env, s, d) ==
+RECURSIVE TypedOnly(_, _, _, _)
+RECURSIVE Valid(_, _, _, _, _, _)
+TypedOnly(env, s, d, D) ==
   IF d.t = "null" THEN TRUE
   ELSE IF Has(s, "ref") \/ Has(s, "enum") \/ Has(s, "allOf") \/ Has(s, "anyOf") THEN TRUE
   ELSE LET T == Main(s) IN
@@ -177,12 +181,16 @@ TypedOnly(env, s, d) ==
       [] T = "number"  -> d.t \in {"num", "big"}
       [] T = "integer" -> d.t \in {"num", "big"} /\ IsIntegral(d)
       [] T = "array"   -> d.t = "arr" /\ (Has(s, "items") =>
-                              \A i \in DOMAIN d.a : TypedOnly(env, s.items, d.a[i]))
+                              \A i \in DOMAIN d.a : TypedOnly(env, s.items, d.a[i], D))
+      \* fields of the anonymous struct: object-typed properties are DECLARED types again (their own
+      \* unmarshaler runs), everything else is decoded by type only
       [] T = "object"  -> d.t = "obj" /\ \A k \in PropNames(s) \cap ObjKeys(d) :
-                                             TypedOnly(env, PropSchema(s, k), ObjVal(d, k))
+                             LET ps == PropSchema(s, k) IN
+                             IF Main(ps) = "object" /\ ~Has(ps, "ref")
+                             THEN Valid(env, ps, ObjVal(d, k), D, "field", NoLim) # Rej
+                             ELSE TypedOnly(env, ps, ObjVal(d, k), D)
       [] OTHER -> TRUE
 
-RECURSIVE Valid(_, _, _, _, _, _)
 RECURSIVE ValidObj(_, _, _, _)
 RECURSIVE ValidRef(_, _, _, _)
 
@@ -192,8 +200,14 @@ Valid(env, s, d, D, ctx, lim) ==
   IF Has(s, "ref") THEN ValidRef(env, s, d, D)
   ELSE IF Has(s, "enum") THEN B3(EnumOK(s, d))
   ELSE IF Has(s, "allOf") THEN
-         And3({Valid(env, s.allOf[i], d, D, "decl", NoLim) : i \in DOMAIN s.allOf}
-              \cup {IF d.t = "obj" THEN Acc ELSE IF d.t = "null" THEN Un ELSE Rej})
+         \* the tool merges the branches into one struct, so "declared" (for deviation
+         \* RequiredUndeclaredIgnored) means declared by ANY branch
+         LET names == UNION {PropNames(ResolveB(env, s.allOf[i])) : i \in DOMAIN s.allOf}
+             dfl   == UNION {{k \in PropNames(ResolveB(env, s.allOf[i])) :
+                                 Has(PropSchema(ResolveB(env, s.allOf[i]), k), "default")} : i \in DOMAIN s.allOf}
+             br(i) == ResolveB(env, s.allOf[i]) @@ ("declared" :> names) @@ ("defaulted" :> dfl)
+         IN And3({Valid(env, br(i), d, D, "decl", NoLim) : i \in DOMAIN s.allOf}
+                 \cup {IF d.t = "obj" THEN Acc ELSE IF d.t = "null" THEN Un ELSE Rej})
   ELSE IF Has(s, "anyOf") THEN
          LET rs == {Valid(env, s.anyOf[i], d, D, "decl", NoLim) : i \in DOMAIN s.anyOf}
          IN IF Acc \in rs THEN Acc ELSE IF Un \in rs THEN Un ELSE Rej
@@ -201,7 +215,9 @@ Valid(env, s, d, D, ctx, lim) ==
   LET T == Main(s) IN
   IF d.t = "null" THEN
        IF Nullable(s) \/ T \in {"any", "null"} THEN Acc ELSE Un
-  ELSE CASE T = "any"     -> Acc
+  ELSE CASE T = "any"     -> \* untyped: object keywords still constrain values that are objects
+                             IF d.t = "obj" /\ (Has(s, "properties") \/ Has(s, "required"))
+                             THEN ValidObj(env, s, d, D) ELSE Acc
          [] T = "null"    -> Rej
          [] T = "boolean" -> B3(d.t = "bool")
          [] T = "string"  -> IF d.t # "str" THEN Rej
@@ -222,7 +238,7 @@ Valid(env, s, d, D, ctx, lim) ==
                                  : i \in DOMAIN d.a})
          [] T = "object"  -> IF d.t # "obj" THEN Rej
                              ELSE IF ctx = "elem" /\ "DeclaredArrayElemUnvalidated" \in D
-                                  THEN B3(TypedOnly(env, s, d))
+                                  THEN B3(TypedOnly(env, s, d, D))
                              ELSE ValidObj(env, s, d, D)
          [] OTHER -> Un
 
@@ -231,9 +247,11 @@ ValidRef(env, s, d, D) ==
   ELSE Valid(env, EnvGet(env, s.ref.n), d, D, "decl", NoLim)
 
 ValidObj(env, s, d, D) ==
-  LET req == {k \in Required(s) :
-                /\ ~("RequiredUndeclaredIgnored" \in D /\ k \notin PropNames(s))
-                /\ ~(k \in PropNames(s) /\ Has(PropSchema(s, k), "default"))}
+  LET declared == IF Has(s, "declared") THEN s.declared ELSE PropNames(s)
+      req == {k \in Required(s) :
+                /\ ~("RequiredUndeclaredIgnored" \in D /\ k \notin declared)
+                /\ ~(k \in PropNames(s) /\ Has(PropSchema(s, k), "default"))
+                /\ ~(Has(s, "defaulted") /\ k \in s.defaulted)}   \* default given by a sibling allOf branch
       reqOK == B3(\A k \in req : ObjHas(d, k))
       propsOK == {Valid(env, PropSchema(s, k), ObjVal(d, k), D, "field", NoLim)
                     : k \in PropNames(s) \cap ObjKeys(d)}
